@@ -38,7 +38,7 @@ def gen_program(rng, profile):
         else:
             choices = {"conserve": ["proc", "one", "ifE", "ifO", "take", "clear", "peek", "enq", "empty"],
                        "empty": ["proc", "one", "take", "clear", "empty", "empty", "enq"],
-                       "wait": ["proc", "one", "take", "enq", "empty"]}[profile]
+                       "wait": ["proc", "one", "take", "enq", "empty", "ifE", "ifO"]}[profile]
             for _ in range(rng.randint(1, 4)):
                 p.append(rng.choice(choices))
         progs.append(p)
